@@ -115,8 +115,14 @@ def build_fn(rng: random.Random) -> Any:
         outs["f1"] = trace_call(f1, x)
         outs["f2u"] = d2["u"]
         outs["f2v"] = d2["v"]
-        outs["top"] = seed_call + call_inner(x + 1)
-    return pt.make_dict_of_named_arrays(outs)
+        if rng.random() < 0.5:
+            outs["top"] = seed_call + call_inner(x + 1)
+    # which function a walk enters FIRST matters to mappers that share state between callee
+    # mappers: random order of the outputs, in insertion order and in name order
+    items = list(outs.items())
+    rng.shuffle(items)
+    letters = rng.sample("abcdefghijklmnopqrstuvwxyz", len(items))
+    return pt.make_dict_of_named_arrays({f"{l_}_{k}": v for l_, (k, v) in zip(letters, items)})
 
 
 def build_dist(rng: random.Random) -> Any:
